@@ -9,7 +9,9 @@ use crate::real::*;
 
 pub struct C09;
 
-pub const VOCAB: [&str; 88] = [
+pub const VOCAB: [&str; 95] = [
+    "0xFFFFFFFFFFFFFFFF", "0x8000000000000000", "0x10000000000000000", "01000000000000000000000",
+    "0b1000000000000000000000000000000000000000000000000000000000000000", "0x7FFFFFFFFFFFFFFF", "\u{feff}",
     "end", "loop", "repeat", "bits", "let", "resetRandom", "while", "declare", "program", "init",
     "memory", "def", "call", "ite", "random", "signExt", "X", "Z", "C", "x", "z", "c", "a", "b",
     "i", "n", "Q", "looper", "end1", "_", "A_out", ",", ";", "+", "-", "*", "/", "%", "!", "~",
@@ -121,7 +123,13 @@ fn soup(ch: &mut Ch) -> String {
     let n = ch.upto(60);
     for _ in 0..n {
         // statement-shaped fragments keep the parser going
-        match ch.weighted(&[10, 2, 2, 2, 2, 1, 1]) {
+        match ch.weighted(&[10, 2, 2, 2, 2, 1, 1, 1]) {
+            7 => {
+                // a bits entry whose width is any vocabulary item (mostly numbers of all kinds)
+                t.push_str("bits(");
+                t.push_str(VOCAB[ch.upto(VOCAB.len())]);
+                t.push_str(",1)");
+            }
             0 => t.push_str(VOCAB[ch.upto(VOCAB.len())]),
             1 => t.push_str("0 1\n"),
             2 => t.push_str("let a = "),
@@ -160,7 +168,16 @@ fn mutate(ch: &mut Ch, text: &str) -> String {
             break;
         }
         let i = ch.upto(pieces.len());
-        match ch.upto(6) {
+        match ch.upto(7) {
+            6 => {
+                // the width of a bits entry replaced by a vocabulary item
+                if let Some(j) = (0..pieces.len()).map(|d| (i + d) % pieces.len()).find(|j| pieces[*j].contains("bits(")) {
+                    let p = pieces[j].clone();
+                    let at = p.find("bits(").unwrap() + 5;
+                    let end = p[at..].find(|c: char| !c.is_ascii_alphanumeric()).map(|e| at + e).unwrap_or(p.len());
+                    pieces[j] = format!("{}{}{}", &p[..at], VOCAB[ch.upto(VOCAB.len())], &p[end..]);
+                }
+            }
             0 => {
                 pieces.remove(i);
             }
@@ -201,7 +218,7 @@ impl Property for C09 {
         "C09"
     }
     fn rule(&self) -> &'static str {
-        "three generators: (a) token soup over the full vocabulary (every keyword incl. program/memory/init/def/call, every operator, identifiers, four integer kinds incl. malformed and overflowing ones, X Z C, punctuation, newline, comments, junk: $ @ e-acute crab U+0085 U+2028 NUL CR TAB FF) behind a plausible header, mixed with statement-shaped fragments; (b) valid generated programs with 1-4 token deletions / duplications / swaps / replacements / insertions / gluings and truncation at any character boundary; (c, thorough) libFuzzer target parse_bytes on raw bytes seeded with the repository's test sources and a token dictionary. Oracle: from_str returns; no panic; for Err(e) every span in e.at has start <= end <= len on char boundaries; the error renders with miette's graphical handler. Non-trivial: the text has a header line and at least one further token; distinct by text."
+        "three generators: (a) token soup over the full vocabulary (every keyword incl. program/memory/init/def/call, every operator, identifiers, four integer kinds incl. malformed and overflowing ones and hex / octal / binary literals with bit 63 set (also as the width of a bits entry), X Z C, punctuation, newline, comments, junk: $ @ e-acute crab U+0085 U+2028 NUL CR TAB FF) behind a plausible header, mixed with statement-shaped fragments; (b) valid generated programs with 1-4 token deletions / duplications / swaps / replacements / insertions / gluings and truncation at any character boundary; (c, thorough) libFuzzer target parse_bytes on raw bytes seeded with the repository's test sources and a token dictionary. One text in twelve starts with a byte order mark. Oracle: from_str returns; no panic; for Err(e) every span in e.at has start <= end <= len on char boundaries; the error renders with miette's graphical handler. Non-trivial: the text has a header line and at least one further token; distinct by text."
     }
     fn cases(&self, tier: Tier) -> u64 {
         match tier {
@@ -210,7 +227,7 @@ impl Property for C09 {
         }
     }
     fn required_classes(&self) -> Vec<&'static str> {
-        vec!["outcome:ok", "err:unexpected-eof", "err:unknown-token", "err:row-width", "err:number-parse", "gen:soup", "gen:mutated", "non-ascii", "kw:program-family"]
+        vec!["outcome:ok", "err:unexpected-eof", "err:unknown-token", "err:row-width", "err:number-parse", "gen:soup", "gen:mutated", "non-ascii", "kw:program-family", "leading-byte-order-mark", "err:too-many-bits"]
     }
     fn check_raw(&self, _kind: &str, data: &[u8]) -> Option<(String, String)> {
         crate::fuzzglue::parse_bytes_kv(data)
@@ -253,6 +270,13 @@ impl Property for C09 {
             let built = gen_case(&mut Ch::new(&s[0]), &break_cfg());
             let r = render(&program_lines(&built.prog), &mut Ch::new(&s[1]), LayoutOpts::ALL);
             mutate(&mut ch, &r.text)
+        };
+        // one text in twelve starts with a byte order mark
+        let text = if ch.chance(1, 12) {
+            out.class("leading-byte-order-mark");
+            format!("{}{text}", '\u{feff}')
+        } else {
+            text
         };
         out.put("source", text.clone());
         if too_deep(&text) {
